@@ -12,6 +12,7 @@ Inductive case : Type :=
 | CExt (esk m pk sig : list Z)           (* SecretKeyExtended: public_key and sign *)
 | CVerify (pk m sig : list Z) (accept : bool)
 | CFromBytes (esk : list Z) (ok : bool)
+| CFromBytesGrid (filler : list Z) (rows : list Z)   (* all 256 x 256 (byte 0, byte 31): bit b31 of row b0 = accepted *)
 | CTryFrom (which : Z) (bs : list Z) (ok : bool).   (* 0 = PublicKey, 1 = Signature *)
 
 Definition beq (a b : list Z) : bool := list_eqb Z.eqb a b.
@@ -23,12 +24,26 @@ Definition std_out (sk m : list Z) : list Z * list Z :=
 Definition ext_out (esk m : list Z) : list Z * list Z :=
   let pk := esk_public_key esk in (pk, ed_sign_ext_with esk pk m).
 
+(* the 64-byte key [filler] with byte 0 := b0 and byte 31 := b31 *)
+Definition grid_key (filler : list Z) (b0 b31 : Z) : list Z :=
+  b0 :: firstn 30 (skipn 1 filler) ++ b31 :: skipn 32 filler.
+Definition grid_cell_ok (filler rows : list Z) (b0 b31 : Z) : bool :=
+  Bool.eqb (is_ok (esk_from_bytes (grid_key filler b0 b31))) (Z.testbit (nth (Z.to_nat b0) rows 0) b31).
+Definition grid_bad (filler rows : list Z) : list (Z * Z) :=
+  flat_map (fun b0 => flat_map (fun b31 => if grid_cell_ok filler rows b0 b31 then [] else [(b0, b31)])
+                               (zrangeZ 0 256)) (zrangeZ 0 256).
+
 Definition case_out (c : case) : list Z * list Z * bool :=
   match c with
   | CStd sk m _ _ => let '(pk, sg) := std_out sk m in (pk, sg, true)
   | CExt esk m _ _ => let '(pk, sg) := ext_out esk m in (pk, sg, true)
   | CVerify pk m sg _ => ([], [], pk_verify pk m sg)
   | CFromBytes k _ => ([], [], is_ok (esk_from_bytes k))
+  | CFromBytesGrid f rows =>            (* first disagreeing (byte 0, byte 31) and the model's answer there *)
+      match grid_bad f rows with
+      | (b0, b31) :: _ => ([b0], [b31], is_ok (esk_from_bytes (grid_key f b0 b31)))
+      | [] => ([], [], true)
+      end
   | CTryFrom w bs _ => ([], [], is_ok (if w =? 0 then pk_try_from bs else sig_try_from bs))
   end.
 
@@ -38,5 +53,8 @@ Definition case_ok (c : case) : bool :=
   | CExt esk m pk sg => let '(pk', sg') := ext_out esk m in beq pk' pk && beq sg' sg
   | CVerify pk m sg acc => Bool.eqb (pk_verify pk m sg) acc
   | CFromBytes k ok => Bool.eqb (is_ok (esk_from_bytes k)) ok
+  | CFromBytesGrid f rows =>
+      (Z.of_nat (length f) =? 64) && (Z.of_nat (length rows) =? 256) &&
+      match grid_bad f rows with [] => true | _ => false end
   | CTryFrom w bs ok => Bool.eqb (is_ok (if w =? 0 then pk_try_from bs else sig_try_from bs)) ok
   end.
